@@ -46,4 +46,14 @@ m = {
     "notes": "All checks: ./check <id> --tier quick|thorough; exit 0 held, 1 VIOLATION, 2 infrastructure. See DESIGN.md.",
 }
 json.dump(m, open(os.path.join(V, "MANIFEST.json"), "w"), indent=1)
+# known_findings.json = merge of the per-property fragments known/Cxx.json (edited by hand, never at run time)
+import glob
+kf = {"_doc": "Committed; merged by tools/gen_manifest.py from known/Cxx.json; never written at run time. "
+              "findings: genuine defects recorded rather than repaired — each suppresses exactly the inputs its predicate "
+              "(a classifier in harness/cXX.py, Check.known) recognises. fixed: informational, suppresses nothing.",
+      "findings": [], "fixed": []}
+for f in sorted(glob.glob(os.path.join(V, "known", "C*.json"))):
+    j = json.load(open(f))
+    kf["findings"] += j.get("findings", []); kf["fixed"] += j.get("fixed", [])
+json.dump(kf, open(os.path.join(V, "known_findings.json"), "w"), indent=1)
 print(f"{len(checks)} checks, {len(na)} not claimed")
